@@ -37,11 +37,16 @@ def to_np(P, dtype="float"):
 def run_gs(case, deadline=10.0):
     from socialchoicekit.deterministic_matching import GaleShapley
     from socialchoicekit.profile_utils import StrictProfile
-    R = to_np(case["R"], case.get("dtype", "float")); H = to_np(case["H"], case.get("dtype", "float"))
+    R = lay(to_np(case["R"], case.get("dtype", "float")), case.get("layout")); H = lay(to_np(case["H"], case.get("dtype", "float")), case.get("layout"))
     cenc = case.get("cdtype", "int64")      # how the caller stores the capacities
     c = list(case["c"]) if cenc == "list" else np.array(case["c"], dtype={"float": float}.get(cenc, cenc))
     R0, H0, c0 = R.copy(), H.copy(), (list(c) if cenc == "list" else c.copy())
     def go():
+        if case.get("pre_ro") is not None:      # history: the caller already solved the same instance (same array objects) in the other orientation
+            try:
+                GaleShapley(resident_oriented=case["pre_ro"], zero_indexed=case["zi"]).scf(StrictProfile.of(R), StrictProfile.of(H), c)
+            except Exception:  # noqa
+                pass
         return GaleShapley(resident_oriented=case["ro"], zero_indexed=case["zi"]).scf(StrictProfile.of(R), StrictProfile.of(H), c)
     r = supervised(go, deadline)
     if r[0] != "ok":
@@ -161,7 +166,10 @@ def gen_cases(rng, tier, exh=True):
         # capacities as the caller may store them: signed / unsigned integer arrays of any width, floats, a plain list
         cenc = ["int64", "int32", "uint8", "uint16", "uint32", "uint64", "int8", "float", "list"][i % 9]
         for ro in (True, False):
-            yield dict(entry="GaleShapley.scf", family="random", R=R, H=H, c=c, ro=ro, zi=bool(i % 2), dtype=dt, cdtype=cenc)
+            d = dict(entry="GaleShapley.scf", family="random", R=R, H=H, c=c, ro=ro, zi=bool(i % 2), dtype=dt, cdtype=cenc)
+            if i % 4 == 1 or (cenc == "int64" and i % 2):
+                d["pre_ro"] = not ro; d["family"] = "random_reuse"
+            yield d
 
 def shrink_gs(case):
     R, H, c = case["R"], case["H"], case["c"]
